@@ -322,13 +322,13 @@ func (k *scoreKit) leavesOf(sf *ssa.Function) ([]*ir.Leaf, error) {
 		}
 		// only helpers whose result is a float64 computed from parameters
 		sig := obj.Type().(*types.Signature)
-		if sig.Results().Len() != 1 || !isFloat64(sig.Results().At(0).Type()) {
+		if sig.Results().Len() != 1 || !(isFloat64(sig.Results().At(0).Type()) || isFloatStruct(sig.Results().At(0).Type())) {
 			return false
 		}
 		byName[callee.String()] = callee
 		return true
 	}
-	ls, err := ir.Leaves(sf, ir.LeafOptions{InlineOK: inlineOK})
+	ls, err := ir.Leaves(sf, ir.LeafOptions{InlineOK: inlineOK, Forward: true})
 	if err != nil {
 		return nil, err
 	}
@@ -344,6 +344,20 @@ func (k *scoreKit) leavesOf(sf *ssa.Function) ([]*ir.Leaf, error) {
 	}
 	k.cache[sf.String()] = ls
 	return ls, nil
+}
+
+// isFloatStruct: a struct of float64 fields (a handful of constants of an equation passed around as one value).
+func isFloatStruct(t types.Type) bool {
+	st, ok := t.Underlying().(*types.Struct)
+	if !ok || st.NumFields() == 0 {
+		return false
+	}
+	for i := 0; i < st.NumFields(); i++ {
+		if !isFloat64(st.Field(i).Type()) {
+			return false
+		}
+	}
+	return true
 }
 
 // closeGuards adds the guards implied by validity of a level: a level whose
